@@ -15,6 +15,8 @@ import (
 //   conc     subscription changes and receives race with arrivals: interval semantics
 //   ovf-sub  context queue shorter than the burst: order-preserving duplicate-free subsequence
 //   ovf-pub  PUB send queue shorter than the burst: the same, plus per-socket consistency
+//   q0       contexts with ReadQLen 0 (or 1-2, overflowing), unread or with a Recv loop: the other
+//            contexts of the socket are exact, the short ones deliver a subsequence
 
 func TestMain(m *testing.M) { hx.Main(m) }
 
@@ -87,9 +89,19 @@ func TestC06(t *testing.T) {
 	for i := 0; i < r.Pick(40, 1500); i++ {
 		cases = append(cases, mon.CaseSpec{Name: "pub-resize", Spec: spec{Mode: "pubresize", NSub: rnd.Intn(3), RawPub: i%2 == 0, WQ: []int{0, 1, 2, 8}[rnd.Intn(4)], Steps: rnd.Intn(8)}})
 	}
+	// Contexts with a zero-length (or tiny, overflowing) queue, unread or with a Recv loop, next to
+	// normal contexts on the same socket: the neighbours stay exact.
+	for i := 0; i < r.Pick(160, 8000); i++ {
+		sp := base("q0")
+		sp.NSub, sp.NCtx = 1+rnd.Intn(2), 2+rnd.Intn(3)
+		sp.Steps = 2 + rnd.Intn(3)
+		cases = append(cases, mon.CaseSpec{Name: "sub-short-queue-neighbour", Spec: sp})
+	}
 	r.Run(cases, func(c *mon.Case) {
 		sp := c.Spec.(spec)
 		switch sp.Mode {
+		case "q0":
+			runQ0(c, sp)
 		case "pubresize":
 			runPubResize(c, sp)
 		case "stalled":
